@@ -118,6 +118,8 @@ fn search_torn(rng: &mut Rng, budget: usize) -> Option<String> {
     let fixed = ["a1;a1;a1,1;r;a1;c1,3;a1", "a1;a1;a1;a1;a1;a1"];
     for f in fixed { let st = dec(f); if let Some(m) = crash_check(&st, true) { return Some(format!("{{\"history\":\"{}\",\"why\":\"{}\"}}|{}", f, m, f)); } }
     for _ in 0..budget.min(12) { let st = gen(rng, 6); if let Some(m) = crash_check(&st, true) { let e = enc(&st); return Some(format!("{{\"history\":\"{}\",\"why\":\"{}\"}}|{}", e, m, e)); } }
+    // torn writes inside make_read_only (two full 4096-byte header slots)
+    for f in ["a1;a1;a1", "a1;a1"] { let st = dec(f); if let Some(m) = crash_check_ro(&st, true, true) { return Some(format!("{{\"history\":\"{};make_read_only\",\"why\":\"{}\"}}|RO:{}", f, m, f)); } }
     None
 }
 fn search_crash_ro(rng: &mut Rng, budget: usize) -> Option<String> {
@@ -128,7 +130,7 @@ fn search_crash_ro(rng: &mut Rng, budget: usize) -> Option<String> {
 }
 fn rerun_crash_ro(input: &str) -> Option<String> { crash_check_ro(&dec(input.rsplit('|').next().unwrap()), false, true) }
 fn rerun_crash(input: &str) -> Option<String> { crash_check(&dec(input.rsplit('|').next().unwrap()), false) }
-fn rerun_torn(input: &str) -> Option<String> { crash_check(&dec(input.rsplit('|').next().unwrap()), true) }
+fn rerun_torn(input: &str) -> Option<String> { let t = input.rsplit('|').next().unwrap(); if let Some(h) = t.strip_prefix("RO:") { crash_check_ro(&dec(h), true, true) } else { crash_check(&dec(t), true) } }
 
 /// C10: inject one I/O error at storage call k of the last step of the history
 fn fault_check(steps: &[Step], with_get: bool) -> Option<String> {
